@@ -404,3 +404,33 @@ func VerifC12_Probe() {
 	text := append([]byte(doc[:cut]), zzverif.Bytes("tail", k)...)
 	vCheckDocument(text, zzverif.Bool("allowTrailing"))
 }
+
+// VerifC12_LenAfterUse: Len() (and Check()) of a document do not depend on
+// what was done with the same object before: reading its whole lexeme stream,
+// reading part of it, or checking it.
+func VerifC12_LenAfterUse() {
+	zzverif.Expect("same")
+	d := zzverif.IntRange("doc", 0, len(vCorpus)-1)
+	text := append([]byte(vCorpus[d]), zzverif.Bytes("tail", zzverif.IntRange("k", 0, 1))...)
+	var opts []Option
+	if zzverif.Bool("allowTrailing") {
+		opts = append(opts, AllowTrailingNonSpaceCharacters())
+	}
+	n1, e1 := New("d", text, opts...).Len()
+	c1 := New("d", text, opts...).Check()
+	doc := New("d", text, opts...)
+	reads := []int{0, 1, 3, 1000}[zzverif.IntRange("reads", 0, 3)]
+	for i := 0; i < reads; i++ {
+		if _, err := doc.NextLexeme(); err != nil {
+			break
+		}
+	}
+	if zzverif.Bool("checkFirst") {
+		_ = doc.Check()
+	}
+	n2, e2 := doc.Len()
+	zzverif.Assert((e1 == nil) == (e2 == nil) && n1 == n2, "Len() does not depend on earlier use of the document")
+	c2 := doc.Check()
+	zzverif.Assert((c1 == nil) == (c2 == nil), "Check() does not depend on earlier use of the document")
+	zzverif.Reach("same")
+}
